@@ -563,12 +563,12 @@ def unit_read_offline(sess, ctx):
         if not ok:
             return None
         data = res[0]
-        a = IntVal(0) if (skip is None or sk == 0) else If(R(skip) > 0, r_round_half_even(R(skip) * R(v.sr)), 0)
+        a = IntVal(0) if (skip is None or sk == 0) else If(R(skip) > 0, r_round_half_even(eng.spec_mul(skip, v.sr)), 0)
         lo = If(a < v.N, If(a > 0, a, 0), v.N)
         if mr is None:
             hi = v.N
         else:
-            m = r_round_half_even(R(mr) * R(v.sr))
+            m = r_round_half_even(eng.spec_mul(mr, v.sr))
             hi = If(R(mr) < 0, v.N, If(lo + m < v.N, If(m > 0, lo + m, lo), v.N))
         okd = isinstance(data, (Seq, bytes))
         eng.prove("C18:read_offline:data-is-bytes-never-None", okd, props=P18)
